@@ -138,6 +138,10 @@ class MiniEval:
                 self.assign(st.target, self.binop(st.op, cur, val), env)
                 continue
             if isinstance(st, ast.Assert):
+                if getattr(self, "check_asserts", False):
+                    # opt-in: the assertion is part of the behaviour being decided (a wrong bound makes valid values crash)
+                    if not self.truth(self.ev(st.test, env)):
+                        return ("raise", "AssertionError")
                 continue
             if isinstance(st, (ast.Pass, ast.Import, ast.ImportFrom, ast.Global, ast.Nonlocal)):
                 continue
